@@ -14,6 +14,7 @@ from ml_pipeline_engine.dag.enums import EdgeField
 from ml_pipeline_engine.dag.enums import NodeField
 from ml_pipeline_engine.dag.errors import OneOfDoesNotHaveResultError
 from ml_pipeline_engine.dag.errors import RecurrentSubgraphDoesNotHaveResultError
+from ml_pipeline_engine.dag.errors import SwitchCaseDoesNotHaveBranchError
 from ml_pipeline_engine.dag.graph import DiGraph
 from ml_pipeline_engine.dag.graph import get_connected_subgraph
 from ml_pipeline_engine.dag.storage import DAGNodeStorage
@@ -295,6 +296,11 @@ class DAGRunConcurrentManager(DAGRunManagerLike):
                 continue
 
             branch_nodes[edge.get(EdgeField.case_branch)] = pred_id
+
+        if selected_branch_label not in branch_nodes:
+            raise SwitchCaseDoesNotHaveBranchError(
+                f'Switch {switch_node_id} does not have a case for the label {selected_branch_label!r}',
+            )
 
         self._node_storage.set_switch_result(
             switch_node_id,
@@ -597,7 +603,19 @@ class DAGRunConcurrentManager(DAGRunManagerLike):
 
         logger.debug('Prepare Switch DAG node_id=%s', node_id)
 
-        self._add_case_result(node_id)
+        try:
+            self._add_case_result(node_id)
+
+        except SwitchCaseDoesNotHaveBranchError as error:
+            # The switch node has returned a label that does not match any case. The run (or the enclosing
+            # OneOf branch) has to fail instead of leaving the consumers of the switch waiting forever.
+            if dag.is_oneof:
+                self._node_storage.set_node_result(node_id, error)
+                await self.__unlock_itself(node_id)
+                await self.__unlock_descendants(node_id)
+                return None
+
+            await self.__raise_exc(error)
 
         result = await self._run_dag(
             dag=self._get_reduced_dag(
